@@ -1,7 +1,7 @@
 """C09 — names resolve lexically; consistent renaming changes nothing (DESIGN §4 C09)."""
 import re
 
-from hir import nodes, walk, fn_body, callee, last, line_of, peel, norm_path, pat_bindings, pp, find_formats
+from hir import nodes, walk, fn_body, callee, last, line_of, peel, norm_path, pat_bindings, pp, find_formats, pat_alternatives, pat_variant
 from engines import Visit, matches_on, arm_alternatives, ty_is
 from flow import Flow
 from scope import Scope, show, TOP, BOTTOM
@@ -42,6 +42,7 @@ def run(F, rep, tier):
     rep.undecided = UNDECIDED
     scope_rules(F, rep, "SCOPE")
     lookup_order(F, rep)
+    qualified_lookup(F, rep)
     decl_order(F, rep)
     visit_resolver(F, rep)
     names_unused(F, rep)
@@ -150,6 +151,22 @@ def lookup_order(F, rep):
            "lookup_global indexes one namespace and does not scan others", lg["sp"])
 
 
+def qualified_lookup(F, rep, rule="LOOKUP"):
+    """`name.field`: `name` is looked up like any other name - innermost local first.  Resolver::assignable asks
+    namespace_list first, so namespace_list must not answer `namespace` for a name that a local or parameter shadows"""
+    fn = F.fn(R + "namespace_list")
+    rep.analysed(fn)
+    consults_stack = any(x.get("k") == "Field" and x["name"] == "stack" for x in nodes(fn_body(fn))) or \
+        any(callee(c) == R + "lookup" for c in nodes(fn_body(fn)) if c.get("k") in ("Call", "MethodCall"))
+    asg = F.fn(R + "assignable")
+    first = any(callee(c) == R + "namespace_list" for c in nodes(fn_body(asg), "MethodCall"))
+    rep.ob(rule, "Resolver::namespace_list|locals-shadow-namespaces", consults_stack or not first,
+           "the head of a qualified name is checked against the local scope before it is taken for a namespace" if consults_stack or not first else
+           "Resolver::assignable resolves `x.f` through namespace_list first, and namespace_list looks only at the file's global "
+           "names: with `use cfg` in the file (or the always-present `use list`, `use math`, .. of the prelude) a parameter or "
+           "local called `cfg` is ignored in `cfg.size`, which silently reads the other module's global", fn["sp"])
+
+
 def decl_order(F, rep):
     fn = F.fn(R + "statement")
     body = fn_body(fn)
@@ -179,8 +196,15 @@ def decl_order(F, rep):
             # the case split must be exactly `matches!(value.kind, ExpressionKind::Function { .. })`: a property of the
             # initialiser only (not of annotations or names)
             c2 = peel(second["c"])
-            is_fn_test = c2.get("k") == "Match" and any(x == "matches" for x in c2.get("mac", [])) and \
-                pp(peel(c2["scrut"])).endswith("value.kind") and "ExpressionKind::Function" in pp(c2)
+            is_fn_test = False
+            if c2.get("k") == "Match" and any(x == "matches" for x in c2.get("mac", [])):
+                scr = peel(c2["scrut"])
+                value_hids = {b["hid"] for b in pat_bindings(alt) if b["name"] == "value"}
+                on_value = scr.get("k") == "Field" and scr["name"] == "kind" and \
+                    any(x.get("hid") in value_hids for x in nodes(scr["e"], "Path"))
+                only_fn = any((pat_variant(a_) or "").endswith("ExpressionKind::Function")
+                              for arm_ in c2["arms"] for a_ in pat_alternatives(arm_["pat"]))
+                is_fn_test = on_value and only_fn
             fn_branch, val_branch = second["t"], second.get("e")
 
             def order(branch):
